@@ -513,8 +513,7 @@ Definition b_1 : text := [98%N].                       (* "b" *)
 
 Lemma lev_256_1 : lev (a_n 256) b_1 = 256.
 Proof.
-  assert (H : wf_long (a_n 256) b_1 = Ok 256) by (vm_compute; reflexivity).
-  rewrite wf_long_correct in H. now injection H.
+  vm_compute. reflexivity.
 Qed.
 
 Lemma lev_255_1 : 254 <= lev (a_n 255) b_1.
